@@ -7,6 +7,7 @@
 //!              crash search, where a panic/abort/stack overflow must not kill the driver).
 mod codec;
 mod inv;
+mod cfg;
 mod ops;
 
 use rayon::prelude::*;
